@@ -10,6 +10,7 @@ mod c14;
 mod c08;
 mod c13;
 mod c11;
+mod c12;
 mod c17;
 mod c18;
 mod c20;
@@ -34,6 +35,7 @@ fn main() {
         "c09" => c08::main(&args, true),
         "c13" => c13::main(&args),
         "c11" => c11::main(&args),
+        "c12" => c12::main(&args),
         "c17" => c17::main(&args),
         "c02" => c02::main(&args),
         "c18" => c18::main(&args),
